@@ -54,11 +54,10 @@ def run_contracts(prop, selectors, required, inst, kind, explanation, fns, level
                 continue
             label = f"{o['prog']} [{' '.join(o['flags'])}]"
             src = next((p["src"] for p in ps if p["name"] == o["prog"]), "")
-            rep.failed_ob(Finding(prop, f"{prop}/rtc/{f['contract']}", f"{o['prog']}|{' '.join(o['flags'])}|{f['contract']}",
+            rep.bounded_violation(Finding(prop, f"{prop}/rtc/{f['contract']}", f"{o['prog']}|{' '.join(o['flags'])}|{f['contract']}",
                                   f"{label}: contract {f['contract']} violated: {f['msg']}",
                                   replay={"program": o["prog"], "flags": o["flags"], "source": src if o["prog"].startswith(("gen/", "pair/", "case/", "rx/", "macro/")) else None, "contract": f["contract"], "detail": f["detail"]},
                                   replayed=True))
-            rep.obligations -= 1   # run-time contract firings are not proof obligations; keep them out of obligations/discharged
     for c, n in evals.items():
         rep.bounded_count(c, n)
     for rq in required:
